@@ -23,6 +23,7 @@ type opFacts struct {
 	NodeRoot          bool
 	Abstract          bool // a field of interface/union type (other than node) is selected
 	VarDefault        bool // a variable declares a default value
+	VarNamedID        bool // a client variable is called `id`, like the executor's own $id of child steps
 }
 
 func analyseOp(schema *ast.Schema, doc *ast.QueryDocument, op *ast.OperationDefinition) opFacts {
@@ -30,6 +31,9 @@ func analyseOp(schema *ast.Schema, doc *ast.QueryDocument, op *ast.OperationDefi
 	for _, vd := range op.VariableDefinitions {
 		if vd.DefaultValue != nil {
 			f.VarDefault = true
+		}
+		if vd.Variable == "id" {
+			f.VarNamedID = true
 		}
 	}
 	spreads := map[string]int{}
@@ -232,6 +236,7 @@ var c01Classes = []c01ClassDef{
 	{"plain-node-root", func(o opFacts, d dataFacts, sh bool) bool { return o.PlainNodeRoot }, []string{"wrong-data"}},
 	{"node-root-fragment", func(o opFacts, d dataFacts, sh bool) bool { return o.NodeRoot }, []string{"invalid-subrequest/unknown-field", "error/internal-service-url", "wrong-data", "error/missing-id"}},
 	{"abstract-type-selection", func(o opFacts, d dataFacts, sh bool) bool { return o.Abstract }, []string{"invalid-subrequest/unknown-field", "wrong-data", "error/missing-id"}},
+	{"variable-named-id", func(o opFacts, d dataFacts, sh bool) bool { return o.VarNamedID }, []string{"invalid-subrequest/other", "wrong-data", "invalid-subrequest/undefined-variable"}},
 	{"var-default", func(o opFacts, d dataFacts, sh bool) bool { return o.VarDefault }, []string{"wrong-data"}},
 	{"hash-in-id", func(o opFacts, d dataFacts, sh bool) bool { return d.HashInID }, []string{"error/empty-id-in-path"}},
 	{"null-in-object-list", func(o opFacts, d dataFacts, sh bool) bool { return d.NullObjElems }, []string{"error/null-list-entry", "wrong-data"}},
